@@ -1,7 +1,8 @@
 \* Decides C19 for every stacking order with a Versioned layer (two views of different versions over one
-\* shared lower stack): every history of at most MaxOps operations.
+\* shared lower stack): every history of at most MaxOps operations. The check substitutes @@STACKS@@ (all such
+\* stacks: {3, 5, 6, 9, 10, 11, 12, 13, 14, 15, 16, 18}; shared-LRU stacks: {6, 13, 14, 16}), @@CAPS@@, @@MAXOPS@@.
 CONSTANTS
-  StackIds = {3, 5, 6, 9, 10, 11, 12, 13, 14, 15, 16, 18}
+  StackIds = @@STACKS@@
   Caps = @@CAPS@@
   DTTLs = {1, 2}
   Keys = {k1, k2}
